@@ -2,10 +2,12 @@
 
    Function literals anywhere (inside function bodies and blocks: factories), closures by reference with `modify`
    writes through the captured cell, function values returned, stored, passed as arguments and called through a
-   variable.  Statements: assignment, modify, print, expression statements, if, while, from (named fresh counter,
-   step 1), return.
+   variable, `self(..)`.  Statements: assignment, modify, print, expression statements, if, if / else, while, from (named
+   fresh counter, step 1), return.  Expressions: calls anywhere -- operands of arithmetic and comparisons, of && || !
+   (short-circuit over calls), of `(a) or b` and `get a`, arguments of calls.
 
-     kind            the static kinds: KD (a first-order value) / KF ps r (a function taking ps, returning r).
+     kind            the static kinds: KD (a first-order value) / KF ps r (a function taking ps, returning r) /
+                     KN (the result of a function that does not surely end with `return e`: maybe no value).
                      The Core syntax carries no types: the kind of a parameter is read off its use in the body
                      (called with n arguments = a function of n data arguments returning data, otherwise data)
      kexpr / kstmt   the decidable fragment test = a kind checker (contexts: B the locals, CD the captured names)
@@ -19,11 +21,13 @@ From MS Require Import Compile.StmtMach Compile.StmtRel Compile.StmtFrag Compile
 Open Scope nat_scope.
 
 (* ================================================================ kinds *)
-Inductive kind := KD | KF (ps : list kind) (r : kind).
+(* KN: the result of a function that may return no value (a procedure): a first-order value if there is one *)
+Inductive kind := KD | KF (ps : list kind) (r : kind) | KN.
 
 Fixpoint kind_eqb (a b : kind) {struct a} : bool :=
   match a, b with
   | KD, KD => true
+  | KN, KN => true
   | KF p1 r1, KF p2 r2 =>
     (fix go (l1 l2 : list kind) {struct l1} : bool :=
        match l1, l2 with
@@ -42,7 +46,7 @@ Proof. reflexivity. Qed.
 
 Lemma kind_eqb_eq : forall a b, kind_eqb a b = true -> a = b.
 Proof.
-  fix IH 1. intros [|p1 r1] [|p2 r2] H; try discriminate; [reflexivity|].
+  fix IH 1. intros [|p1 r1|] [|p2 r2|] H; try discriminate; try reflexivity.
   rewrite kind_eqb_KF in H. apply andb_true_iff in H as [Hp Hr]. rewrite (IH r1 r2 Hr). f_equal.
   revert p2 Hp. induction p1 as [|x p1 IHp]; intros [|y p2] Hp; try discriminate; [reflexivity|].
   cbn [kinds_eqb] in Hp. apply andb_true_iff in Hp as [Hx Hp]. rewrite (IH x y Hx), (IHp p2 Hp). reflexivity.
@@ -101,18 +105,31 @@ Fixpoint capctx (B CD : kctx) (ns : list str) : option kctx :=
 Fixpoint nodupb (l : list str) : bool :=
   match l with [] => true | x :: t => negb (mem_str x t) && nodupb t end.
 
+(* the body surely ends with `return e` *)
+Fixpoint last_ret (l : list stmt) : bool :=
+  match l with
+  | [] => false
+  | [st] => match st with SReturn (Some _) => true | _ => false end
+  | _ :: l' => last_ret l' end.
+(* the kind of the result of a function: that of its returned values if it surely returns, otherwise "maybe nothing" *)
+Definition rkind (body : list stmt) (rets : list kind) : kind := if last_ret body then hd KD rets else KN.
+
 Definition kres := option (kctx * list kind).       (* the locals afterwards, the kinds of the values returned *)
 
-Fixpoint kexpr (B CD : kctx) (e : expr) {struct e} : option kind :=
+Definition sfk := option (list kind * kind).     (* inside a function: the kinds of its parameters and of its result (for self(..)) *)
+
+Fixpoint kexpr (SF : sfk) (B CD : kctx) (e : expr) {struct e} : option kind :=
   let fix kargs (l : list expr) {struct l} : option (list kind) :=
     match l with
     | [] => Some []
-    | a :: l => match kexpr B CD a, kargs l with Some k, Some ks => Some (k :: ks) | _, _ => None end
+    | a :: l => match kexpr SF B CD a, kargs l with Some k, Some ks => Some (k :: ks) | _, _ => None end
     end in
   if ok_dexpr B CD e then Some KD else
   match e with
   | EVar x => if src_nameb x then kvar B CD x else None
-  | EBin o a b => match kexpr B CD a, kexpr B CD b with Some KD, Some KD => Some KD | _, _ => None end
+  | EBin _ a b | EAnd a b | EOr a b | ENilOr a b =>
+    match kexpr SF B CD a, kexpr SF B CD b with Some KD, Some KD => Some KD | _, _ => None end
+  | ENot a | EGet a _ => match kexpr SF B CD a with Some KD => Some KD | _ => None end
   | ECall f args =>
     match f with
     | EVar g =>
@@ -122,138 +139,168 @@ Fixpoint kexpr (B CD : kctx) (e : expr) {struct e} : option kind :=
         | _, _ => None end
       else None
     | _ => None end
+  | ESelf args =>
+    match SF with
+    | Some (pk, r) => match kargs args with Some ks => if kinds_eqb ks pk then Some r else None | None => None end
+    | None => None end
   | EFn ps body =>
     let pk := map (pkind body) ps in
     match capctx B CD (free_vars ps body) with
     | Some G =>
-      let fix kb (B' : kctx) (l : list stmt) {struct l} : kres :=
+      let kb := fun (sf : sfk) => fix kb (B' : kctx) (l : list stmt) {struct l} : kres :=
         match l with
         | [] => Some (B', [])
-        | s :: l => match kstmt B' G s with
+        | s :: l => match kstmt sf B' G s with
                     | Some (B'', r1) => match kb B'' l with Some (B3, r2) => Some (B3, r1 ++ r2) | None => None end
                     | None => None end
         end in
-      match kb (rev (combine ps pk)) body with
-      | Some (_, rets) =>
-        let r := hd KD rets in
-        if nodupb ps && forallb src_nameb ps && forallb (kind_eqb r) rets then Some (KF pk r) else None
+      match kb (Some (pk, KD)) (rev (combine ps pk)) body with
+      | Some (_, rets0) =>
+        let r := rkind body rets0 in
+        match (if kind_eqb r KD then Some rets0
+               else match kb (Some (pk, r)) (rev (combine ps pk)) body with Some (_, rets) => Some rets | None => None end) with
+        | Some rets => if nodupb ps && forallb src_nameb ps && forallb (kind_eqb r) rets then Some (KF pk r) else None
+        | None => None end
       | None => None end
     | None => None end
   | _ => None
   end
-with kstmt (B CD : kctx) (s : stmt) {struct s} : kres :=
+with kstmt (SF : sfk) (B CD : kctx) (s : stmt) {struct s} : kres :=
   let fix kb (B' : kctx) (l : list stmt) {struct l} : kres :=
     match l with
     | [] => Some (B', [])
-    | s :: l => match kstmt B' CD s with
+    | s :: l => match kstmt SF B' CD s with
                 | Some (B'', r1) => match kb B'' l with Some (B3, r2) => Some (B3, r1 ++ r2) | None => None end
                 | None => None end
     end in
   match s with
   | SAssign x e =>
     if src_nameb x then
-      match kexpr B CD e with
+      match kexpr SF B CD e with
       | Some k => match assoc x B with
                   | Some k' => if kind_eqb k k' then Some (B, []) else None
                   | None => Some ((x, k) :: B, []) end
       | None => None end
     else None
   | SModify x e =>
-    match assoc x CD, kexpr B CD e with
+    match assoc x CD, kexpr SF B CD e with
     | Some k', Some k => if src_nameb x && kind_eqb k k' then Some (B, []) else None
     | _, _ => None end
-  | SPrint e => if is_KD (kexpr B CD e) then Some (B, []) else None
-  | SExpr e => match kexpr B CD e with Some _ => Some (B, []) | None => None end
+  | SPrint e => if is_KD (kexpr SF B CD e) then Some (B, []) else None
+  | SExpr e => match kexpr SF B CD e with Some _ => Some (B, []) | None => None end
   | SIf c body =>
-    if is_KD (kexpr B CD c) then match kb B body with Some (_, r) => Some (B, r) | None => None end else None
+    if is_KD (kexpr SF B CD c) then match kb B body with Some (_, r) => Some (B, r) | None => None end else None
+  | SIfElse c body els =>
+    if is_KD (kexpr SF B CD c) then
+      match kb B body, kb B els with Some (_, r1), Some (_, r2) => Some (B, r1 ++ r2) | _, _ => None end
+    else None
   | SWhile c body =>
-    if is_KD (kexpr B CD c) then match kb B body with Some (_, r) => Some (B, r) | None => None end else None
+    if is_KD (kexpr SF B CD c) then match kb B body with Some (_, r) => Some (B, r) | None => None end else None
   | SFrom a b incl None (Some x) false body =>
     if ok_dexpr B CD a && ok_dexpr B CD b && src_nameb x && negb (mem_str x (map fst B)) && negb (mem_str x (used_e b)) then
       match kb ((x, KD) :: B) body with Some (_, r) => Some (B, r) | None => None end
     else None
-  | SReturn (Some e) => match kexpr B CD e with Some k => Some (B, [k]) | None => None end
+  | SReturn (Some e) => match kexpr SF B CD e with Some k => Some (B, [k]) | None => None end
   | _ => None
   end.
 
-Fixpoint kblock (B CD : kctx) (l : list stmt) {struct l} : kres :=
+Fixpoint kblock (SF : sfk) (B CD : kctx) (l : list stmt) {struct l} : kres :=
   match l with
   | [] => Some (B, [])
-  | s :: l => match kstmt B CD s with
-              | Some (B', r1) => match kblock B' CD l with Some (B3, r2) => Some (B3, r1 ++ r2) | None => None end
+  | s :: l => match kstmt SF B CD s with
+              | Some (B', r1) => match kblock SF B' CD l with Some (B3, r2) => Some (B3, r1 ++ r2) | None => None end
               | None => None end
   end.
-Fixpoint kargs (B CD : kctx) (l : list expr) : option (list kind) :=
+Fixpoint kargs (SF : sfk) (B CD : kctx) (l : list expr) : option (list kind) :=
   match l with
   | [] => Some []
-  | a :: l => match kexpr B CD a, kargs B CD l with Some k, Some ks => Some (k :: ks) | _, _ => None end
+  | a :: l => match kexpr SF B CD a, kargs SF B CD l with Some k, Some ks => Some (k :: ks) | _, _ => None end
   end.
 
-(* the kind of a function literal *)
+(* the kind of a function literal.  The kind of the result is read off the first `return` (rkind); `self(..)` has that kind
+   (first pass with the guess "data", a second one when the function returns a function) *)
 Definition kfn (B CD : kctx) (ps : list str) (body : list stmt) : option (kctx * list kind * kind) :=
   let pk := map (pkind body) ps in
   match capctx B CD (free_vars ps body) with
   | Some G =>
-    match kblock (rev (combine ps pk)) G body with
-    | Some (_, rets) =>
-      let r := hd KD rets in
-      if nodupb ps && forallb src_nameb ps && forallb (kind_eqb r) rets then Some (G, pk, r) else None
+    match kblock (Some (pk, KD)) (rev (combine ps pk)) G body with
+    | Some (_, rets0) =>
+      let r := rkind body rets0 in
+      match (if kind_eqb r KD then Some rets0
+             else match kblock (Some (pk, r)) (rev (combine ps pk)) G body with Some (_, rets) => Some rets | None => None end) with
+      | Some rets => if nodupb ps && forallb src_nameb ps && forallb (kind_eqb r) rets then Some (G, pk, r) else None
+      | None => None end
     | None => None end
   | None => None end.
 
-Lemma kblock_fix : forall CD l B,
+Lemma kblock_fix : forall SF CD l B,
   (fix kb (B' : kctx) (l : list stmt) {struct l} : kres :=
      match l with
      | [] => Some (B', [])
-     | s :: l => match kstmt B' CD s with
+     | s :: l => match kstmt SF B' CD s with
                  | Some (B'', r1) => match kb B'' l with Some (B3, r2) => Some (B3, r1 ++ r2) | None => None end
                  | None => None end
-     end) B l = kblock B CD l.
+     end) B l = kblock SF B CD l.
 Proof.
-  intros CD. induction l as [|s l IH]; intros B; [reflexivity|]. cbn [kblock].
-  destruct (kstmt B CD s) as [[B' r1]|]; [|reflexivity]. now rewrite IH.
+  intros SF CD. induction l as [|s l IH]; intros B; [reflexivity|]. cbn [kblock].
+  destruct (kstmt SF B CD s) as [[B' r1]|]; [|reflexivity]. now rewrite IH.
 Qed.
-Lemma kargs_fix : forall B CD l,
+Lemma kargs_fix : forall SF B CD l,
   (fix kargs (l : list expr) {struct l} : option (list kind) :=
      match l with
      | [] => Some []
-     | a :: l => match kexpr B CD a, kargs l with Some k, Some ks => Some (k :: ks) | _, _ => None end
-     end) l = kargs B CD l.
-Proof. intros B CD. induction l as [|a l IH]; [reflexivity|]. cbn [kargs]. now rewrite IH. Qed.
+     | a :: l => match kexpr SF B CD a, kargs l with Some k, Some ks => Some (k :: ks) | _, _ => None end
+     end) l = kargs SF B CD l.
+Proof. intros SF B CD. induction l as [|a l IH]; [reflexivity|]. cbn [kargs]. now rewrite IH. Qed.
 
 (* the equations of the checker *)
-Lemma kexpr_eq : forall B CD e, kexpr B CD e =
+Lemma kexpr_eq : forall SF B CD e, kexpr SF B CD e =
   if ok_dexpr B CD e then Some KD else
   match e with
   | EVar x => if src_nameb x then kvar B CD x else None
-  | EBin o a b => match kexpr B CD a, kexpr B CD b with Some KD, Some KD => Some KD | _, _ => None end
+  | EBin _ a b | EAnd a b | EOr a b | ENilOr a b =>
+    match kexpr SF B CD a, kexpr SF B CD b with Some KD, Some KD => Some KD | _, _ => None end
+  | ENot a | EGet a _ => match kexpr SF B CD a with Some KD => Some KD | _ => None end
   | ECall (EVar g) args =>
       if src_nameb g then
-        match kvar B CD g, kargs B CD args with
+        match kvar B CD g, kargs SF B CD args with
         | Some (KF pk r), Some ks => if kinds_eqb ks pk then Some r else None
         | _, _ => None end
       else None
+  | ESelf args =>
+    match SF with
+    | Some (pk, r) => match kargs SF B CD args with Some ks => if kinds_eqb ks pk then Some r else None | None => None end
+    | None => None end
   | EFn ps body => match kfn B CD ps body with Some (_, pk, r) => Some (KF pk r) | None => None end
   | _ => None
   end.
 Proof.
-  intros B CD e. destruct e as [z|b|s| |x|o a b|a b|a b|a|a|f args|args|ps body|a b|a sp]; try reflexivity.
+  intros SF B CD e. destruct e as [z|b|s| |x|o a b|a b|a b|a|a|f args|args|ps body|a b|a sp]; try reflexivity.
   - cbn [kexpr]. destruct (ok_dexpr B CD (ECall f args)); [reflexivity|]. destruct f; try reflexivity. now rewrite kargs_fix.
+  - cbn [kexpr]. destruct (ok_dexpr B CD (ESelf args)); [reflexivity|]. now rewrite kargs_fix.
   - cbn [kexpr]. destruct (ok_dexpr B CD (EFn ps body)); [reflexivity|]. unfold kfn.
-    destruct (capctx B CD (free_vars ps body)) as [G|]; [|reflexivity]. rewrite kblock_fix.
-    destruct (kblock (rev (combine ps (map (pkind body) ps))) G body) as [[B' rets]|]; [|reflexivity].
-    destruct (nodupb ps && forallb src_nameb ps && forallb (kind_eqb (hd KD rets)) rets); reflexivity.
+    destruct (capctx B CD (free_vars ps body)) as [G|]; [|reflexivity]. rewrite !kblock_fix.
+    destruct (kblock (Some (map (pkind body) ps, KD)) (rev (combine ps (map (pkind body) ps))) G body) as [[B' rets0]|]; [|reflexivity].
+    rewrite ?kblock_fix. destruct (kind_eqb (rkind body rets0) KD).
+    + destruct (nodupb ps && forallb src_nameb ps && forallb (kind_eqb (rkind body rets0)) rets0); reflexivity.
+    + destruct (kblock (Some (map (pkind body) ps, rkind body rets0)) (rev (combine ps (map (pkind body) ps))) G body) as [[B2 rets]|]; [|reflexivity].
+      destruct (nodupb ps && forallb src_nameb ps && forallb (kind_eqb (rkind body rets0)) rets); reflexivity.
 Qed.
 
-Lemma kstmt_SIf : forall B CD c body, kstmt B CD (SIf c body) =
-  if is_KD (kexpr B CD c) then match kblock B CD body with Some (_, r) => Some (B, r) | None => None end else None.
+Lemma kstmt_SIf : forall SF B CD c body, kstmt SF B CD (SIf c body) =
+  if is_KD (kexpr SF B CD c) then match kblock SF B CD body with Some (_, r) => Some (B, r) | None => None end else None.
 Proof. intros. cbn [kstmt]. now rewrite kblock_fix. Qed.
-Lemma kstmt_SWhile : forall B CD c body, kstmt B CD (SWhile c body) =
-  if is_KD (kexpr B CD c) then match kblock B CD body with Some (_, r) => Some (B, r) | None => None end else None.
+Lemma kstmt_SIfElse : forall SF B CD c body els, kstmt SF B CD (SIfElse c body els) =
+  if is_KD (kexpr SF B CD c) then
+    match kblock SF B CD body, kblock SF B CD els with Some (_, r1), Some (_, r2) => Some (B, r1 ++ r2) | _, _ => None end
+  else None.
+Proof. intros. cbn [kstmt]. now rewrite !kblock_fix. Qed.
+Lemma kstmt_SWhile : forall SF B CD c body, kstmt SF B CD (SWhile c body) =
+  if is_KD (kexpr SF B CD c) then match kblock SF B CD body with Some (_, r) => Some (B, r) | None => None end else None.
 Proof. intros. cbn [kstmt]. now rewrite kblock_fix. Qed.
-Lemma kstmt_SFrom : forall B CD a b incl x body, kstmt B CD (SFrom a b incl None (Some x) false body) =
+Lemma kstmt_SFrom : forall SF B CD a b incl x body, kstmt SF B CD (SFrom a b incl None (Some x) false body) =
   if ok_dexpr B CD a && ok_dexpr B CD b && src_nameb x && negb (mem_str x (map fst B)) && negb (mem_str x (used_e b)) then
-    match kblock ((x, KD) :: B) CD body with Some (_, r) => Some (B, r) | None => None end
+    match kblock SF ((x, KD) :: B) CD body with Some (_, r) => Some (B, r) | None => None end
   else None.
 Proof. intros. cbn [kstmt]. now rewrite kblock_fix. Qed.
 
@@ -281,6 +328,21 @@ Fixpoint ec (d lr k : nat) (e : expr) {struct e} : list instr * fbl :=
     let '(ca, fa) := ec (S d) lr k a in
     let '(cb, fb) := ec (S d) lr (k + length fa) b in
     (ca ++ [mkI OP_STORE_FAST [reg d]] ++ cb ++ [mkI OP_LOAD_FAST [reg d]; mkI OP_FAST_REV2 []] ++ [op_instr o], fa ++ fb)
+  | EAnd a b =>
+    let '(ca, fa) := ec (S d) lr k a in
+    let '(cb, fb) := ec (S d) lr (k + length fa) b in
+    (ca ++ [mkI OP_STORE_SKIP [reg d; s_zero; sN (length cb + 3)]] ++ cb ++ [mkI OP_LOAD_FAST [reg d]; mkI OP_BIN_OP [op_and]], fa ++ fb)
+  | EOr a b =>
+    let '(ca, fa) := ec (S d) lr k a in
+    let '(cb, fb) := ec (S d) lr (k + length fa) b in
+    (ca ++ [mkI OP_STORE_SKIP [reg d; s_one; sN (length cb + 3)]] ++ cb ++ [mkI OP_LOAD_FAST [reg d]; mkI OP_BIN_OP [op_or]], fa ++ fb)
+  | ENot a => let '(ca, fa) := ec (S d) lr k a in (ca ++ [mkI OP_NOT []], fa)
+  | ENilOr a b =>
+    let '(ca, fa) := ec (S d) lr k a in
+    let '(cb, fb) := ec (S d) lr (k + length fa) b in
+    (ca ++ [mkI OP_JMP_NOT_NIL [sN (length cb + 1)]] ++ cb, fa ++ fb)
+  | EGet a sp => let '(ca, fa) := ec (S d) lr k a in (ca ++ [mkI OP_UNWRAP [sp]], fa)
+  | ESelf l => let '(ci, cl, fl) := args (S d) k l in (ci ++ cl ++ [mkI OP_CALL_SELF []], fl)
   | ECall f l =>
     match f with
     | EVar g =>
@@ -316,6 +378,13 @@ with sc (c lr k : nat) (s : stmt) {struct s} : list instr * fbl :=
     let '(cb0, fb) := bc lr (k + length fc) body in
     let cb := cb0 ++ [mkI OP_DONE []] in
     (cc ++ [mkI OP_IF_STMT [sN (length cb + 1)]] ++ cb, fc ++ fb)
+  | SIfElse cnd body els =>
+    let '(cc, fc) := ec c lr k cnd in
+    let '(cb0, fb) := bc lr (k + length fc) body in
+    let cb := cb0 ++ [mkI OP_DONE []] in
+    let '(ce0, fe) := bc lr (k + length fc + length fb) els in
+    let ce := mkI OP_ELSE_STMT [] :: ce0 ++ [mkI OP_DONE []] in
+    (cc ++ [mkI OP_IF_STMT [sN (length cb + 2)]] ++ cb ++ [mkI OP_JMP [sN (length ce + 1)]] ++ ce, fc ++ fb ++ fe)
   | SWhile cnd body =>
     let '(cc, fc) := ec c lr k cnd in
     let '(cb0, fb) := bc lr (k + length fc) body in
@@ -402,10 +471,38 @@ Lemma ec_EFn : forall d lr k ps body, ec d lr k (EFn ps body) =
   ([mkI OP_MAKE_FUNCTION (name :: free_vars ps body)], fb ++ [(name, S d, fcode d lr k ps body)]).
 Proof. intros. cbn [ec]. rewrite bc_fix1. unfold fcode. destruct (bc (S d) lr k body) as [cb fb]. reflexivity. Qed.
 
+Lemma ec_EAnd : forall d lr k a b, ec d lr k (EAnd a b) =
+  let '(ca, fa) := ec (S d) lr k a in
+  let '(cb, fb) := ec (S d) lr (k + length fa) b in
+  (ca ++ [mkI OP_STORE_SKIP [reg d; s_zero; sN (length cb + 3)]] ++ cb ++ [mkI OP_LOAD_FAST [reg d]; mkI OP_BIN_OP [op_and]], fa ++ fb).
+Proof. reflexivity. Qed.
+Lemma ec_EOr : forall d lr k a b, ec d lr k (EOr a b) =
+  let '(ca, fa) := ec (S d) lr k a in
+  let '(cb, fb) := ec (S d) lr (k + length fa) b in
+  (ca ++ [mkI OP_STORE_SKIP [reg d; s_one; sN (length cb + 3)]] ++ cb ++ [mkI OP_LOAD_FAST [reg d]; mkI OP_BIN_OP [op_or]], fa ++ fb).
+Proof. reflexivity. Qed.
+Lemma ec_ENot : forall d lr k a, ec d lr k (ENot a) = let '(ca, fa) := ec (S d) lr k a in (ca ++ [mkI OP_NOT []], fa).
+Proof. reflexivity. Qed.
+Lemma ec_ENilOr : forall d lr k a b, ec d lr k (ENilOr a b) =
+  let '(ca, fa) := ec (S d) lr k a in
+  let '(cb, fb) := ec (S d) lr (k + length fa) b in
+  (ca ++ [mkI OP_JMP_NOT_NIL [sN (length cb + 1)]] ++ cb, fa ++ fb).
+Proof. reflexivity. Qed.
+Lemma ec_EGet : forall d lr k a sp, ec d lr k (EGet a sp) = let '(ca, fa) := ec (S d) lr k a in (ca ++ [mkI OP_UNWRAP [sp]], fa).
+Proof. reflexivity. Qed.
+Lemma ec_ESelf : forall d lr k l, ec d lr k (ESelf l) =
+  let '(ci, cl, fl) := eargs lr (S d) k l in (ci ++ cl ++ [mkI OP_CALL_SELF []], fl).
+Proof. intros. cbn [ec]. now rewrite eargs_fix. Qed.
+
 Lemma ec_pure : forall e, pure e = true -> forall d lr k, ec d lr k e = (pcode d e, []).
 Proof.
   induction e; intros Hp d lr k; cbn [pure] in Hp; try discriminate; try reflexivity.
-  apply andb_true_iff in Hp as [H1 H2]. rewrite ec_EBin, (IHe1 H1), (IHe2 H2). reflexivity.
+  - apply andb_true_iff in Hp as [H1 H2]. rewrite ec_EBin, (IHe1 H1), (IHe2 H2). reflexivity.
+  - apply andb_true_iff in Hp as [H1 H2]. rewrite ec_EAnd, (IHe1 H1), (IHe2 H2). reflexivity.
+  - apply andb_true_iff in Hp as [H1 H2]. rewrite ec_EOr, (IHe1 H1), (IHe2 H2). reflexivity.
+  - rewrite ec_ENot, (IHe Hp). reflexivity.
+  - apply andb_true_iff in Hp as [H1 H2]. rewrite ec_ENilOr, (IHe1 H1), (IHe2 H2). reflexivity.
+  - rewrite ec_EGet, (IHe Hp). reflexivity.
 Qed.
 
 Lemma sc_SIf : forall c lr k cnd body, sc c lr k (SIf cnd body) =
@@ -414,6 +511,17 @@ Lemma sc_SIf : forall c lr k cnd body, sc c lr k (SIf cnd body) =
   let cb := cb0 ++ [mkI OP_DONE []] in
   (cc ++ [mkI OP_IF_STMT [sN (length cb + 1)]] ++ cb, fc ++ fb).
 Proof. intros. cbn [sc]. destruct (ec c lr k cnd) as [cc fc]. now rewrite bc_fix. Qed.
+Lemma sc_SIfElse : forall c lr k cnd body els, sc c lr k (SIfElse cnd body els) =
+  let '(cc, fc) := ec c lr k cnd in
+  let '(cb0, fb) := bc c lr (k + length fc) body in
+  let cb := cb0 ++ [mkI OP_DONE []] in
+  let '(ce0, fe) := bc c lr (k + length fc + length fb) els in
+  let ce := mkI OP_ELSE_STMT [] :: ce0 ++ [mkI OP_DONE []] in
+  (cc ++ [mkI OP_IF_STMT [sN (length cb + 2)]] ++ cb ++ [mkI OP_JMP [sN (length ce + 1)]] ++ ce, fc ++ fb ++ fe).
+Proof.
+  intros. cbn [sc]. destruct (ec c lr k cnd) as [cc fc]. rewrite bc_fix. destruct (bc c lr (k + length fc) body) as [cb0 fb].
+  now rewrite bc_fix.
+Qed.
 Lemma sc_SWhile : forall c lr k cnd body, sc c lr k (SWhile cnd body) =
   let '(cc, fc) := ec c lr k cnd in
   let '(cb0, fb) := bc c lr (k + length fc) body in
@@ -456,10 +564,10 @@ Section Comp.
 Variable path : str.
 
 Definition comp_e (e : expr) : Prop :=
-  forall B CD k0, kexpr B CD e = Some k0 -> forall d st,
+  forall SF B CD k0, kexpr SF B CD e = Some k0 -> forall d st,
     cexpr path d e st = (map CI (fst (ec path d (lreg st) (fid st) e)), stx st (snd (ec path d (lreg st) (fid st) e))).
 Definition comp_s (s : stmt) : Prop :=
-  forall B CD r, kstmt B CD s = Some r -> forall c sl st,
+  forall SF B CD r, kstmt SF B CD s = Some r -> forall c sl st,
     cstmt path c sl s st = (map CI (fst (sc path c (lreg st) (fid st) s)), stx st (snd (sc path c (lreg st) (fid st) s))).
 
 Lemma comp_pure : forall e, pure e = true -> forall d st,
@@ -469,30 +577,30 @@ Proof. intros e Hp d st. rewrite (ec_pure path e Hp), (cexpr_pure path e Hp). cb
 Lemma ok_dexpr_pure : forall B CD e, ok_dexpr B CD e = true -> pure e = true.
 Proof. intros B CD e H. unfold ok_dexpr in H. rewrite !andb_true_iff in H. tauto. Qed.
 
-Lemma comp_block : forall l, Forall comp_s l -> forall B CD r, kblock B CD l = Some r -> forall c sl st,
+Lemma comp_block : forall l, Forall comp_s l -> forall SF B CD r, kblock SF B CD l = Some r -> forall c sl st,
   cblockT path c sl l st = (map CI (fst (bc path c (lreg st) (fid st) l)), stx st (snd (bc path c (lreg st) (fid st) l))).
 Proof.
-  induction l as [|s l IH]; intros HF B CD r Hk c sl st.
+  induction l as [|s l IH]; intros HF SF B CD r Hk c sl st.
   - cbn [cblockT bc fst snd map]. now rewrite stx_nil.
-  - cbn [kblock] in Hk. destruct (kstmt B CD s) as [[B' r1]|] eqn:Es; [|discriminate].
-    destruct (kblock B' CD l) as [[B3 r2]|] eqn:El; [|discriminate].
-    cbn [cblockT bc]. rewrite (Forall_inv HF B CD _ Es c sl st).
+  - cbn [kblock] in Hk. destruct (kstmt SF B CD s) as [[B' r1]|] eqn:Es; [|discriminate].
+    destruct (kblock SF B' CD l) as [[B3 r2]|] eqn:El; [|discriminate].
+    cbn [cblockT bc]. rewrite (Forall_inv HF SF B CD _ Es c sl st).
     destruct (sc path c (lreg st) (fid st) s) as [cs fs] eqn:E1. cbn [fst snd].
-    rewrite (IH (Forall_inv_tail HF) B' CD _ El c sl (stx st fs)). rewrite stx_lreg, stx_fid.
+    rewrite (IH (Forall_inv_tail HF) SF B' CD _ El c sl (stx st fs)). rewrite stx_lreg, stx_fid.
     destruct (bc path c (lreg st) (fid st + length fs) l) as [cl fl]. cbn [fst snd]. now rewrite stx_app, map_app.
 Qed.
 
-Lemma comp_args : forall l, Forall comp_e l -> forall B CD ks, kargs B CD l = Some ks -> forall j st,
+Lemma comp_args : forall l, Forall comp_e l -> forall SF B CD ks, kargs SF B CD l = Some ks -> forall j st,
   cargs path j l st = (map CI (fst (fst (eargs path (lreg st) j (fid st) l))), map CI (snd (fst (eargs path (lreg st) j (fid st) l))),
                        stx st (snd (eargs path (lreg st) j (fid st) l))).
 Proof.
-  induction l as [|a l IH]; intros HF B CD ks Hk j st.
+  induction l as [|a l IH]; intros HF SF B CD ks Hk j st.
   - cbn [cargs eargs fst snd map]. now rewrite stx_nil.
-  - cbn [kargs] in Hk. destruct (kexpr B CD a) as [k1|] eqn:Ea; [|discriminate].
-    destruct (kargs B CD l) as [ks'|] eqn:El; [|discriminate].
-    cbn [cargs eargs]. rewrite (Forall_inv HF B CD _ Ea j st).
+  - cbn [kargs] in Hk. destruct (kexpr SF B CD a) as [k1|] eqn:Ea; [|discriminate].
+    destruct (kargs SF B CD l) as [ks'|] eqn:El; [|discriminate].
+    cbn [cargs eargs]. rewrite (Forall_inv HF SF B CD _ Ea j st).
     destruct (ec path j (lreg st) (fid st) a) as [ca fa]. cbn [fst snd].
-    rewrite (IH (Forall_inv_tail HF) B CD _ El (S j) (stx st fa)). rewrite stx_lreg, stx_fid.
+    rewrite (IH (Forall_inv_tail HF) SF B CD _ El (S j) (stx st fa)). rewrite stx_lreg, stx_fid.
     destruct (eargs path (lreg st) (S j) (fid st + length fa) l) as [[ci cl] fl]. cbn [fst snd].
     rewrite stx_app, !map_app. reflexivity.
 Qed.
@@ -523,104 +631,148 @@ Proof. reflexivity. Qed.
 Lemma sc_Return : forall c lr k e, sc path c lr k (SReturn (Some e)) = let '(ce, fe) := ec path c lr k e in (ce ++ [mkI OP_RET []], fe).
 Proof. reflexivity. Qed.
 
+Lemma cstmt_SIfElse' : forall c sl cnd body els st, cstmt path c sl (SIfElse cnd body els) st =
+  let '(cc, st) := cexpr path c cnd st in
+  let '(cb, st) := cblockT path c (option_map S sl) body st in
+  let cb := cb ++ [I OP_DONE []] in
+  let '(ce, st) := cblockT path c (option_map S sl) els st in
+  let ce := I OP_ELSE_STMT [] :: ce ++ [I OP_DONE []] in
+  (cc ++ [I OP_IF_STMT [sN (length cb + 2)]] ++ cb ++ [I OP_JMP [sN (length ce + 1)]] ++ ce, st).
+Proof. intros. apply cstmt_SIfElse. Qed.
+
+(* the two-operand forms share the shape of the proof *)
+Ltac two_ops IHa IHb SF B CD Ea Eb d st :=
+  rewrite (IHa SF B CD _ Ea (S d) st);
+  destruct (ec path (S d) (lreg st) (fid st) _) as [ca fa]; cbn [fst snd];
+  rewrite (IHb SF B CD _ Eb (S d) (stx st fa)); rewrite stx_lreg, stx_fid;
+  destruct (ec path (S d) (lreg st) (fid st + length fa) _) as [cb fb]; cbn [fst snd];
+  rewrite stx_app, ?I_op_instr, !map_app, ?map_length; reflexivity.
+
 Theorem comp_both : (forall e, comp_e e) /\ (forall s, comp_s s).
 Proof.
   apply expr_stmt_ind'; unfold comp_e, comp_s.
   all: try (intros; apply comp_pure; reflexivity).
   - (* EBin *)
-    intros o a b IHa IHb B CD k0 Hk d st. destruct (pure (EBin o a b)) eqn:Hp; [now apply comp_pure|].
+    intros o a b IHa IHb SF B CD k0 Hk d st. destruct (pure (EBin o a b)) eqn:Hp; [now apply comp_pure|].
     rewrite kexpr_eq in Hk. destruct (ok_dexpr B CD (EBin o a b)) eqn:Ho; [apply ok_dexpr_pure in Ho; congruence|].
-    destruct (kexpr B CD a) as [[|? ?]|] eqn:Ea; try discriminate. destruct (kexpr B CD b) as [[|? ?]|] eqn:Eb; try discriminate.
-    rewrite cexpr_EBin, ec_EBin. rewrite (IHa B CD _ Ea (S d) st).
-    destruct (ec path (S d) (lreg st) (fid st) a) as [ca fa]. cbn [fst snd].
-    rewrite (IHb B CD _ Eb (S d) (stx st fa)). rewrite stx_lreg, stx_fid.
-    destruct (ec path (S d) (lreg st) (fid st + length fa) b) as [cb fb]. cbn [fst snd].
-    rewrite stx_app, I_op_instr, !map_app. reflexivity.
-  - (* EAnd *) intros a b _ _ B CD k0 Hk d st. rewrite kexpr_eq in Hk. destruct (ok_dexpr B CD (EAnd a b)) eqn:Ho; [|discriminate].
-    apply comp_pure. exact (ok_dexpr_pure _ _ _ Ho).
-  - intros a b _ _ B CD k0 Hk d st. rewrite kexpr_eq in Hk. destruct (ok_dexpr B CD (EOr a b)) eqn:Ho; [|discriminate].
-    apply comp_pure. exact (ok_dexpr_pure _ _ _ Ho).
-  - intros a _ B CD k0 Hk d st. rewrite kexpr_eq in Hk. destruct (ok_dexpr B CD (ENot a)) eqn:Ho; [|discriminate].
-    apply comp_pure. exact (ok_dexpr_pure _ _ _ Ho).
-  - intros a _ B CD k0 Hk d st. rewrite kexpr_eq in Hk. destruct (ok_dexpr B CD (ENeg a)) eqn:Ho; [|discriminate].
+    destruct (kexpr SF B CD a) as [[|? ?|]|] eqn:Ea; try discriminate. destruct (kexpr SF B CD b) as [[|? ?|]|] eqn:Eb; try discriminate.
+    rewrite cexpr_EBin, ec_EBin. two_ops IHa IHb SF B CD Ea Eb d st.
+  - (* EAnd *)
+    intros a b IHa IHb SF B CD k0 Hk d st. destruct (pure (EAnd a b)) eqn:Hp; [now apply comp_pure|].
+    rewrite kexpr_eq in Hk. destruct (ok_dexpr B CD (EAnd a b)) eqn:Ho; [apply ok_dexpr_pure in Ho; congruence|].
+    destruct (kexpr SF B CD a) as [[|? ?|]|] eqn:Ea; try discriminate. destruct (kexpr SF B CD b) as [[|? ?|]|] eqn:Eb; try discriminate.
+    rewrite cexpr_EAnd, ec_EAnd. two_ops IHa IHb SF B CD Ea Eb d st.
+  - (* EOr *)
+    intros a b IHa IHb SF B CD k0 Hk d st. destruct (pure (EOr a b)) eqn:Hp; [now apply comp_pure|].
+    rewrite kexpr_eq in Hk. destruct (ok_dexpr B CD (EOr a b)) eqn:Ho; [apply ok_dexpr_pure in Ho; congruence|].
+    destruct (kexpr SF B CD a) as [[|? ?|]|] eqn:Ea; try discriminate. destruct (kexpr SF B CD b) as [[|? ?|]|] eqn:Eb; try discriminate.
+    rewrite cexpr_EOr, ec_EOr. two_ops IHa IHb SF B CD Ea Eb d st.
+  - (* ENot *)
+    intros a IHa SF B CD k0 Hk d st. destruct (pure (ENot a)) eqn:Hp; [now apply comp_pure|].
+    rewrite kexpr_eq in Hk. destruct (ok_dexpr B CD (ENot a)) eqn:Ho; [apply ok_dexpr_pure in Ho; congruence|].
+    destruct (kexpr SF B CD a) as [[|? ?|]|] eqn:Ea; try discriminate.
+    rewrite cexpr_ENot, ec_ENot. rewrite (IHa SF B CD _ Ea (S d) st).
+    destruct (ec path (S d) (lreg st) (fid st) a) as [ca fa]. cbn [fst snd]. now rewrite map_app.
+  - intros a _ SF B CD k0 Hk d st. rewrite kexpr_eq in Hk. destruct (ok_dexpr B CD (ENeg a)) eqn:Ho; [|discriminate].
     apply comp_pure. exact (ok_dexpr_pure _ _ _ Ho).
   - (* ECall *)
-    intros f l _ IHl B CD k0 Hk d st. rewrite kexpr_eq in Hk.
+    intros f l _ IHl SF B CD k0 Hk d st. rewrite kexpr_eq in Hk.
     destruct (ok_dexpr B CD (ECall f l)) eqn:Ho; [apply ok_dexpr_pure in Ho; discriminate|].
     destruct f as [| | | |g| | | | | | | | | |]; try discriminate.
-    destruct (src_nameb g); [|discriminate]. destruct (kvar B CD g) as [[|pk r]|]; try discriminate.
-    destruct (kargs B CD l) as [ks|] eqn:El; [|discriminate].
-    rewrite cexpr_ECall, ec_ECall. cbn [cexpr]. rewrite (comp_args l IHl B CD ks El (S (S d)) st).
+    destruct (src_nameb g); [|discriminate]. destruct (kvar B CD g) as [[|pk r|]|]; try discriminate.
+    destruct (kargs SF B CD l) as [ks|] eqn:El; [|discriminate].
+    rewrite cexpr_ECall, ec_ECall. cbn [cexpr]. rewrite (comp_args l IHl SF B CD ks El (S (S d)) st).
     destruct (eargs path (lreg st) (S (S d)) (fid st) l) as [[ci cl] fl]. cbn [fst snd]. rewrite !map_app. reflexivity.
-  - (* ESelf *) intros l _ B CD k0 Hk d st. rewrite kexpr_eq in Hk. destruct (ok_dexpr B CD (ESelf l)) eqn:Ho; [|discriminate].
-    apply ok_dexpr_pure in Ho. discriminate.
+  - (* ESelf *)
+    intros l IHl SF B CD k0 Hk d st. rewrite kexpr_eq in Hk. destruct (ok_dexpr B CD (ESelf l)) eqn:Ho; [apply ok_dexpr_pure in Ho; discriminate|].
+    destruct SF as [[pk r]|] eqn:ESF; [|discriminate]. rewrite <- ESF in *. destruct (kargs SF B CD l) as [ks|] eqn:El; [|discriminate].
+    rewrite cexpr_ESelf, ec_ESelf. rewrite (comp_args l IHl _ B CD ks El (S d) st).
+    destruct (eargs path (lreg st) (S d) (fid st) l) as [[ci cl] fl]. cbn [fst snd]. rewrite !map_app. reflexivity.
   - (* EFn *)
-    intros ps body IHb B CD k0 Hk d st. rewrite kexpr_eq in Hk.
+    intros ps body IHb SF B CD k0 Hk d st. rewrite kexpr_eq in Hk.
     destruct (ok_dexpr B CD (EFn ps body)) eqn:Ho; [apply ok_dexpr_pure in Ho; discriminate|].
     unfold kfn in Hk. destruct (capctx B CD (free_vars ps body)) as [G|]; [|discriminate].
-    destruct (kblock (rev (combine ps (map (pkind body) ps))) G body) as [[B' rets]|] eqn:Eb; [|discriminate].
-    rewrite cexpr_EFn_eq, ec_EFn. rewrite (comp_block body IHb _ G _ Eb (S d) None st).
+    destruct (kblock (Some (map (pkind body) ps, KD)) (rev (combine ps (map (pkind body) ps))) G body) as [[B' rets]|] eqn:Eb; [|discriminate].
+    rewrite cexpr_EFn_eq, ec_EFn. rewrite (comp_block body IHb _ _ G _ Eb (S d) None st).
     unfold fcode. destruct (bc path (S d) (lreg st) (fid st) body) as [cb fb]. cbn [fst snd]. cbv zeta.
     rewrite stx_fid, stx_lreg. f_equal.
     unfold stx. cbn [fid lreg fbuf]. rewrite app_length, map_app. cbn [length map fbe fst snd].
     rewrite !strip_app, strip_map_CI, strip_map_CI, strip_ftail_CI. rewrite <- app_assoc.
     f_equal. lia.
-  - intros a b _ _ B CD k0 Hk d st. rewrite kexpr_eq in Hk. destruct (ok_dexpr B CD (ENilOr a b)) eqn:Ho; [|discriminate].
-    apply comp_pure. exact (ok_dexpr_pure _ _ _ Ho).
-  - intros a sp _ B CD k0 Hk d st. rewrite kexpr_eq in Hk. destruct (ok_dexpr B CD (EGet a sp)) eqn:Ho; [|discriminate].
-    apply comp_pure. exact (ok_dexpr_pure _ _ _ Ho).
+  - (* ENilOr *)
+    intros a b IHa IHb SF B CD k0 Hk d st. destruct (pure (ENilOr a b)) eqn:Hp; [now apply comp_pure|].
+    rewrite kexpr_eq in Hk. destruct (ok_dexpr B CD (ENilOr a b)) eqn:Ho; [apply ok_dexpr_pure in Ho; congruence|].
+    destruct (kexpr SF B CD a) as [[|? ?|]|] eqn:Ea; try discriminate. destruct (kexpr SF B CD b) as [[|? ?|]|] eqn:Eb; try discriminate.
+    rewrite cexpr_ENilOr, ec_ENilOr. two_ops IHa IHb SF B CD Ea Eb d st.
+  - (* EGet *)
+    intros a sp IHa SF B CD k0 Hk d st. destruct (pure (EGet a sp)) eqn:Hp; [now apply comp_pure|].
+    rewrite kexpr_eq in Hk. destruct (ok_dexpr B CD (EGet a sp)) eqn:Ho; [apply ok_dexpr_pure in Ho; congruence|].
+    destruct (kexpr SF B CD a) as [[|? ?|]|] eqn:Ea; try discriminate.
+    rewrite cexpr_EGet, ec_EGet. rewrite (IHa SF B CD _ Ea (S d) st).
+    destruct (ec path (S d) (lreg st) (fid st) a) as [ca fa]. cbn [fst snd]. now rewrite map_app.
   - (* SAssign *)
-    intros x e IHe B CD r Hk c sl st. cbn [kstmt] in Hk. destruct (src_nameb x); [|discriminate].
-    destruct (kexpr B CD e) as [k|] eqn:Ee; [|discriminate]. rewrite cstmt_Assign, sc_Assign. rewrite (IHe B CD k Ee c st).
+    intros x e IHe SF B CD r Hk c sl st. cbn [kstmt] in Hk. destruct (src_nameb x); [|discriminate].
+    destruct (kexpr SF B CD e) as [k|] eqn:Ee; [|discriminate]. rewrite cstmt_Assign, sc_Assign. rewrite (IHe SF B CD k Ee c st).
     destruct (ec path c (lreg st) (fid st) e) as [ce fe]. cbn [fst snd]. now rewrite map_app.
   - (* SModify *)
-    intros x e IHe B CD r Hk c sl st. cbn [kstmt] in Hk. destruct (assoc x CD) as [kx|]; [|discriminate].
-    destruct (kexpr B CD e) as [k1|] eqn:Ee; [|discriminate]. rewrite cstmt_Modify, sc_Modify. rewrite (IHe B CD k1 Ee c st).
+    intros x e IHe SF B CD r Hk c sl st. cbn [kstmt] in Hk. destruct (assoc x CD) as [kx|]; [|discriminate].
+    destruct (kexpr SF B CD e) as [k1|] eqn:Ee; [|discriminate]. rewrite cstmt_Modify, sc_Modify. rewrite (IHe SF B CD k1 Ee c st).
     destruct (ec path c (lreg st) (fid st) e) as [ce fe]. cbn [fst snd]. now rewrite map_app.
-  - intros x o e _ B CD r Hk. discriminate.
+  - intros x o e _ SF B CD r Hk. discriminate.
   - (* SPrint *)
-    intros e IHe B CD r Hk c sl st. cbn [kstmt] in Hk. destruct (kexpr B CD e) as [k|] eqn:Ee; [|discriminate].
-    rewrite cstmt_Print, sc_Print. rewrite (IHe B CD k Ee c st).
+    intros e IHe SF B CD r Hk c sl st. cbn [kstmt] in Hk. destruct (kexpr SF B CD e) as [k|] eqn:Ee; [|discriminate].
+    rewrite cstmt_Print, sc_Print. rewrite (IHe SF B CD k Ee c st).
     destruct (ec path c (lreg st) (fid st) e) as [ce fe]. cbn [fst snd]. now rewrite map_app.
-  - intros e sp _ B CD r Hk. discriminate.
+  - intros e sp _ SF B CD r Hk. discriminate.
   - (* SExpr *)
-    intros e IHe B CD r Hk c sl st. cbn [kstmt] in Hk. destruct (kexpr B CD e) as [k|] eqn:Ee; [|discriminate].
-    rewrite cstmt_Expr, sc_Expr. rewrite (IHe B CD k Ee c st).
+    intros e IHe SF B CD r Hk c sl st. cbn [kstmt] in Hk. destruct (kexpr SF B CD e) as [k|] eqn:Ee; [|discriminate].
+    rewrite cstmt_Expr, sc_Expr. rewrite (IHe SF B CD k Ee c st).
     destruct (ec path c (lreg st) (fid st) e) as [ce fe]. cbn [fst snd]. now rewrite map_app.
   - (* SIf *)
-    intros cnd body IHc IHb B CD r Hk c sl st. rewrite kstmt_SIf in Hk.
-    destruct (kexpr B CD cnd) as [k|] eqn:Ec; [|discriminate]. cbn [is_KD] in Hk. destruct k; [|discriminate].
-    destruct (kblock B CD body) as [[B' rb]|] eqn:Eb; [|discriminate].
-    rewrite cstmt_SIf, sc_SIf. rewrite (IHc B CD _ Ec c st).
+    intros cnd body IHc IHb SF B CD r Hk c sl st. rewrite kstmt_SIf in Hk.
+    destruct (kexpr SF B CD cnd) as [k|] eqn:Ec; [|discriminate]. cbn [is_KD] in Hk. destruct k; [|discriminate..].
+    destruct (kblock SF B CD body) as [[B' rb]|] eqn:Eb; [|discriminate].
+    rewrite cstmt_SIf, sc_SIf. rewrite (IHc SF B CD _ Ec c st).
     destruct (ec path c (lreg st) (fid st) cnd) as [cc fc]. cbn [fst snd].
-    rewrite (comp_block body IHb B CD _ Eb c (option_map S sl) (stx st fc)). rewrite stx_lreg, stx_fid.
+    rewrite (comp_block body IHb SF B CD _ Eb c (option_map S sl) (stx st fc)). rewrite stx_lreg, stx_fid.
     destruct (bc path c (lreg st) (fid st + length fc) body) as [cb0 fb]. cbn [fst snd].
     rewrite stx_app, !map_app, !app_length, !map_length. reflexivity.
-  - intros cnd b e _ _ _ B CD r Hk. discriminate.
-  - intros cnd b n _ _ _ B CD r Hk. discriminate.
-  - (* SWhile *)
-    intros cnd body IHc IHb B CD r Hk c sl st. rewrite kstmt_SWhile in Hk.
-    destruct (kexpr B CD cnd) as [k|] eqn:Ec; [|discriminate]. cbn [is_KD] in Hk. destruct k; [|discriminate].
-    destruct (kblock B CD body) as [[B' rb]|] eqn:Eb; [|discriminate].
-    rewrite cstmt_SWhile, sc_SWhile. rewrite (IHc B CD _ Ec c st).
+  - (* SIfElse *)
+    intros cnd body els IHc IHb IHe SF B CD r Hk c sl st. rewrite kstmt_SIfElse in Hk.
+    destruct (kexpr SF B CD cnd) as [k|] eqn:Ec; [|discriminate]. cbn [is_KD] in Hk. destruct k; [|discriminate..].
+    destruct (kblock SF B CD body) as [[B' rb]|] eqn:Eb; [|discriminate].
+    destruct (kblock SF B CD els) as [[B2 re]|] eqn:Ee; [|discriminate].
+    rewrite cstmt_SIfElse', sc_SIfElse. rewrite (IHc SF B CD _ Ec c st).
     destruct (ec path c (lreg st) (fid st) cnd) as [cc fc]. cbn [fst snd].
-    rewrite (comp_block body IHb B CD _ Eb c (Some 1) (stx st fc)). rewrite stx_lreg, stx_fid.
+    rewrite (comp_block body IHb SF B CD _ Eb c (option_map S sl) (stx st fc)). rewrite stx_lreg, stx_fid.
+    destruct (bc path c (lreg st) (fid st + length fc) body) as [cb0 fb]. cbn [fst snd].
+    rewrite (comp_block els IHe SF B CD _ Ee c (option_map S sl) (stx (stx st fc) fb)). rewrite !stx_lreg, !stx_fid.
+    destruct (bc path c (lreg st) (fid st + length fc + length fb) els) as [ce0 fe]. cbn [fst snd]. cbv zeta.
+    rewrite !stx_app. cbn [length map]. rewrite !map_app, !app_length, !map_length. cbn [map length]. rewrite !map_app. reflexivity.
+  - intros cnd b n _ _ _ SF B CD r Hk. discriminate.
+  - (* SWhile *)
+    intros cnd body IHc IHb SF B CD r Hk c sl st. rewrite kstmt_SWhile in Hk.
+    destruct (kexpr SF B CD cnd) as [k|] eqn:Ec; [|discriminate]. cbn [is_KD] in Hk. destruct k; [|discriminate..].
+    destruct (kblock SF B CD body) as [[B' rb]|] eqn:Eb; [|discriminate].
+    rewrite cstmt_SWhile, sc_SWhile. rewrite (IHc SF B CD _ Ec c st).
+    destruct (ec path c (lreg st) (fid st) cnd) as [cc fc]. cbn [fst snd].
+    rewrite (comp_block body IHb SF B CD _ Eb c (Some 1) (stx st fc)). rewrite stx_lreg, stx_fid.
     destruct (bc path c (lreg st) (fid st + length fc) body) as [cb0 fb]. cbn [fst snd]. cbv zeta.
     change [I OP_JMP_POP [neg_off (1 + length (map CI cb0) + length (map CI cc))]]
       with (map CI [mkI OP_JMP_POP [neg_off (1 + length (map CI cb0) + length (map CI cc))]]).
     rewrite <- map_app, resolve_map_CI. rewrite stx_app, !map_app, !app_length, !map_length. reflexivity.
   - (* SFrom *)
-    intros a b incl step name collide body _ _ _ IHb B CD r Hk c sl st.
+    intros a b incl step name collide body _ _ _ IHb SF B CD r Hk c sl st.
     destruct step as [e|]; [discriminate|]. destruct name as [x|]; [|discriminate]. destruct collide; [discriminate|].
     rewrite kstmt_SFrom in Hk.
     destruct (ok_dexpr B CD a && ok_dexpr B CD b && src_nameb x && negb (mem_str x (map fst B)) && negb (mem_str x (used_e b))) eqn:Hc;
       [|discriminate].
     rewrite !andb_true_iff in Hc. destruct Hc as [[[[Ha Hb] _] _] _].
-    destruct (kblock ((x, KD) :: B) CD body) as [[B' rb]|] eqn:Eb; [|discriminate].
+    destruct (kblock SF ((x, KD) :: B) CD body) as [[B' rb]|] eqn:Eb; [|discriminate].
     rewrite cstmt_SFrom, sc_SFrom.
     rewrite (cexpr_pure path a (ok_dexpr_pure _ _ _ Ha)), (cexpr_pure path b (ok_dexpr_pure _ _ _ Hb)).
     cbv zeta.
-    rewrite (comp_block body IHb _ CD _ Eb c (Some 1) {| fid := fid st; lreg := S (lreg st); fbuf := fbuf st |}).
+    rewrite (comp_block body IHb SF _ CD _ Eb c (Some 1) {| fid := fid st; lreg := S (lreg st); fbuf := fbuf st |}).
     cbn [lreg fid].
     destruct (bc path c (S (lreg st)) (fid st) body) as [cbody fb]. cbn [fst snd].
     match goal with |- context [resolve ?F ?S0 0 ?L] =>
@@ -632,11 +784,11 @@ Proof.
         rewrite <- !map_app. apply resolve_map_CI. }
     unfold stx. cbn [fid lreg fbuf]. replace (S (lreg st) - 1) with (lreg st) by lia.
     rewrite !map_app, !app_length, !map_length. cbn [map length]. rewrite <- !app_assoc. reflexivity.
-  - intros B CD r Hk. discriminate.
-  - intros B CD r Hk. discriminate.
+  - intros SF B CD r Hk. discriminate.
+  - intros SF B CD r Hk. discriminate.
   - (* SReturn *)
-    intros [e|] IHe B CD r Hk c sl st; [|discriminate]. cbn [kstmt] in Hk.
-    destruct (kexpr B CD e) as [k|] eqn:Ee; [|discriminate]. rewrite cstmt_Return, sc_Return. rewrite (IHe e eq_refl B CD k Ee c st).
+    intros [e|] IHe SF B CD r Hk c sl st; [|discriminate]. cbn [kstmt] in Hk.
+    destruct (kexpr SF B CD e) as [k|] eqn:Ee; [|discriminate]. rewrite cstmt_Return, sc_Return. rewrite (IHe e eq_refl SF B CD k Ee c st).
     destruct (ec path c (lreg st) (fid st) e) as [ce fe]. cbn [fst snd]. now rewrite map_app.
 Qed.
 End Comp.
